@@ -239,3 +239,16 @@ def path_consistent(func, items):
                 return False
         seen[k] = (t0, i)
     return True
+
+
+def resolve_local(func, e, depth=0):
+    """Replace a reference to a local that has exactly one assignment (its initialiser or a
+    single `=`) by the assigned expression (helps shape rules survive `tmp = expr; use(tmp)`)."""
+    e = strip_casts(e)
+    if e is None or depth > 3 or e["k"] != "ref" or e.get("cat") not in ("local",):
+        return e
+    srcs = [rhs for n, lv, op, rhs in stores(func.body)
+            if lv["k"] in ("ref", "var") and lv.get("name") == e["name"]]
+    if len(srcs) == 1 and srcs[0] is not None:
+        return resolve_local(func, srcs[0], depth + 1)
+    return e
